@@ -449,6 +449,8 @@ class SpawnProcessRunner(ProcessRunner):
             results_map = {
                 dependency_task: self.results_map[dependency_task]
                 for dependency_task in get_direct_dependencies(task)
+                # Failed dependencies have no result to transfer.
+                if dependency_task in self.results_map
             }
         return executor.submit(
             self._subprocess_func,
